@@ -2,6 +2,9 @@
 
 Proof: coq/props/C12.v (invariant over every history of add_nodes / add_travel_arcs / add_exit_arcs /
 add_entry_arcs; load along depot-to-depot paths; exact arc set of the canonical build order).
+Generated model: harness/translate_mirp.py regenerates the four operations (and __init__, add_arc, estimate_high_cost)
+from the source into coq/gen/MirpGen.v; coq/genprops/C12_gen.v proves them equal to the hand model and restates the
+headline theorems for the generated operations (ctx.gen_step, notes/C11_gen.md).
 Tie: the real MIRP is driven with exact rationals (props/xq.py) through canonical builds and through
 arbitrary histories (repeated / reordered calls, missing fees, zero speed); the value of every call and the
 complete final state (node table, arc table in dict order, port lists, port_mapping) are compared with the
@@ -393,6 +396,11 @@ def exact_failure(size, H, ops):
 # ---------------- main ----------------
 def run(ctx):
     ctx.prove()
+    import translate_mirp as TM
+    ctx.gen_step("mirp", TM.translate, "C12_gen",
+                 "harness/translate_mirp.py (ast -> Gallina printer for the plain-Python methods of class MIRP: __init__, "
+                 "add_node, add_arc, add_nodes, add_travel_arcs, add_entry_arcs, add_exit_arcs, estimate_high_cost) and the "
+                 "meaning given to its combinators in coq/theories/PyMirp.v")
     rng = ctx.rng
     n_canon = 140 if ctx.quick else 2100
     n_hist = 60 if ctx.quick else 900
